@@ -5,7 +5,7 @@
 //! spec / corpus line: `<lang> <texthex|-> <queryhex>`.
 //!
 //! Case format:
-//!   case <id> / haserror <0|1> / query <hex> / compile ok | compile err <offset> <kind> <srclen>
+//!   case <id> / haserror <0|1> / query <hex> / compile ok | compile err <offset> <kind> <srclen> | compile crash
 //!   n <id> <named> <missing> <error> <extra> <sb> <eb> <nchildren> <kindhex> <fieldhex|->   (preorder)
 //!   caps <name>*            capture names by index
 //!   m <pattern> <ncaps> (<capindex> <nodeid>)*
@@ -753,6 +753,76 @@ fn hexs(s: &str) -> String {
     }
 }
 
+/// Does the query text contain a parenthesised GROUP (its `(` is followed by `(`, `[` or `"`) with a
+/// `+` quantifier?  Those are compiled in a child process first (see `guarded_compile_ok`).
+fn has_plus_group(q: &str) -> bool {
+    let b = q.as_bytes();
+    let mut stack: Vec<bool> = Vec::new();
+    let mut i = 0;
+    let mut in_str = false;
+    while i < b.len() {
+        let c = b[i];
+        if in_str {
+            if c == b'\\' {
+                i += 1;
+            } else if c == b'"' {
+                in_str = false;
+            }
+        } else if c == b'"' {
+            in_str = true;
+        } else if c == b'(' {
+            let mut j = i + 1;
+            while j < b.len() && (b[j] == b' ' || b[j] == b'\n') {
+                j += 1;
+            }
+            stack.push(j < b.len() && (b[j] == b'(' || b[j] == b'[' || b[j] == b'"'));
+        } else if c == b')' {
+            let g = stack.pop().unwrap_or(false);
+            if g && i + 1 < b.len() && b[i + 1] == b'+' {
+                return true;
+            }
+        }
+        i += 1;
+    }
+    false
+}
+
+/// `Query::new` on a `+` group whose body can match nothing does not terminate / exhausts memory on
+/// some trees of the library, which would take the explorer down with it.  Such queries are compiled
+/// in a child process (this executable, `--compile-probe`) with a 1 GB address space and a 10 s
+/// budget first; `false` = the child crashed or ran out of time.
+fn guarded_compile_ok(lang_id: &str, qt: &str) -> bool {
+    let exe = match std::env::current_exe() {
+        Ok(e) => e,
+        Err(_) => return true,
+    };
+    let child = std::process::Command::new(exe)
+        .args(["--compile-probe", lang_id, &hex(qt.as_bytes())])
+        .env("VERIF_MEM_GB", "1")
+        .stdout(std::process::Stdio::null())
+        .stderr(std::process::Stdio::null())
+        .spawn();
+    let mut child = match child {
+        Ok(c) => c,
+        Err(_) => return true,
+    };
+    let start = std::time::Instant::now();
+    loop {
+        match child.try_wait() {
+            Ok(Some(status)) => return status.success(),
+            Ok(None) => {
+                if start.elapsed().as_secs() >= 10 {
+                    let _ = child.kill();
+                    let _ = child.wait();
+                    return false;
+                }
+                std::thread::sleep(std::time::Duration::from_millis(2));
+            }
+            Err(_) => return false,
+        }
+    }
+}
+
 fn emit_case(out: &mut impl Write, cid: &str, lang_id: &str, lang: &Language, tree: &Tree, text: &[u8], qt: &str, st: &mut Stats) {
     writeln!(out, "spec {cid} {lang_id} {} {}", if text.is_empty() { "-".into() } else { hex(text) }, hex(qt.as_bytes())).unwrap();
     writeln!(out, "case {cid}").unwrap();
@@ -810,6 +880,14 @@ fn emit_case(out: &mut impl Write, cid: &str, lang_id: &str, lang: &Language, tr
     st.cases += 1;
     if !qt.chars().any(|c| c == '+' || c == '*' || c == '?') {
         st.qfree += 1;
+    }
+    if has_plus_group(qt) && !guarded_compile_ok(lang_id, qt) {
+        writeln!(out, "compile crash").unwrap();
+        writeln!(out, "run").unwrap();
+        return;
+    }
+    if std::env::var("C05_TRACE").is_ok() {
+        eprintln!("C05_TRACE {} {} {:?} text={:?}", cid, lang_id, qt, String::from_utf8_lossy(text));
     }
     match Query::new(lang, qt) {
         Err(e) => {
@@ -885,6 +963,17 @@ fn parse_spec(line: &str) -> Option<(String, Vec<u8>, String)> {
 fn main() {
     limit_resources();
     let args: Vec<String> = std::env::args().collect();
+    if args.get(1).map(|s| s == "--compile-probe").unwrap_or(false) {
+        // child of `guarded_compile_ok`: exit 0 whatever the verdict; a crash / timeout is the signal
+        if let (Some(lang), Some(qh)) = (args.get(2), args.get(3)) {
+            if let Ok(b) = zoo::load(lang) {
+                if let Ok(q) = String::from_utf8(unhex(qh)) {
+                    let _ = Query::new(&b.language, &q);
+                }
+            }
+        }
+        return;
+    }
     let out_path = args.get(1).expect("usage: c05 <ops-file> [--spec file] [lang...]").clone();
     let mut out = std::io::BufWriter::new(std::fs::File::create(&out_path).unwrap());
     let mut st = Stats { cases: 0, compiled: 0, rejected: 0, with_match: 0, qfree: 0, matches: 0 };
